@@ -419,12 +419,16 @@ pub fn observe(root: &Path) -> Obs {
         let _ = std::fs::remove_dir_all(&art);
         std::fs::create_dir_all(&art).map_err(|e| e.to_string())?;
         let mut out = String::new();
+        let mut cores: Vec<compiler::artifact::CoreUnit> = Vec::new();
+        let mut inputs_of: HashMap<String, Vec<PathBuf>> = HashMap::new();
+        let mut all_built = true;
         for p in &topo {
             let dir = graph.package_dirs.get(p).cloned().unwrap_or_else(|| root.join(p));
             let mut inputs: Vec<PathBuf> = std::fs::read_dir(&dir)
                 .map(|rd| rd.filter_map(|e| e.ok().map(|e| e.path())).filter(|q| q.extension().is_some_and(|x| x == "gom")).collect())
                 .unwrap_or_default();
             inputs.sort();
+            inputs_of.insert(p.clone(), inputs.clone());
             let opts = || PackageInputs { package: p.clone(), input_files: inputs.clone(), interface_paths: vec![art.clone()] };
             match separate::build_package(opts()) {
                 Ok(unit) => {
@@ -433,10 +437,50 @@ pub fn observe(root: &Path) -> Obs {
                     std::fs::write(art.join(format!("{}.interface", p)), &ij).map_err(|e| e.to_string())?;
                     let cj = cj.replace(&root.to_string_lossy().to_string(), "$ROOT");
                     writeln!(out, "{} hash={} iface={:016x} core={:016x}", p, unit.interface.interface_hash, h64(&ij), h64(&cj)).unwrap();
+                    cores.push(unit);
                 }
                 Err(e) => {
                     writeln!(out, "{} err {}", p, diag_text(&e, root).replace('\n', " ; ")).unwrap();
+                    all_built = false;
                     break;
+                }
+            }
+        }
+        if all_built {
+            // link what was built
+            match separate::link_cores(cores.clone()) {
+                Ok(lo) => writeln!(out, "link ok go={}", digest(&lo.go.to_pretty(&lo.goenv, 120))).unwrap(),
+                Err(e) => writeln!(out, "link err {}", diag_text(&e, root).replace('\n', " ; ")).unwrap(),
+            }
+            // a dependency that changed its interface after its dependents were built: every dependent is
+            // stale and the link must be refused with the same message every time
+            let mut users: BTreeMap<String, usize> = BTreeMap::new();
+            for c in &cores {
+                for d in c.deps.keys() {
+                    *users.entry(d.clone()).or_insert(0) += 1;
+                }
+            }
+            if let Some((leaf, _)) = users.iter().filter(|(_, n)| **n >= 2).next() {
+                let dir = graph.package_dirs.get(leaf).cloned().unwrap_or_else(|| root.join(leaf));
+                let extra = dir.join("zz_extra.gom");
+                std::fs::write(&extra, format!("package {}\n\nfn zz_extra_item() -> int32 {{\n    1\n}}\n", leaf)).map_err(|e| e.to_string())?;
+                let mut inputs = inputs_of.get(leaf).cloned().unwrap_or_default();
+                inputs.push(extra.clone());
+                let rebuilt = separate::build_package(PackageInputs { package: leaf.clone(), input_files: inputs, interface_paths: vec![art.clone()] });
+                let _ = std::fs::remove_file(&extra);
+                if let Ok(unit) = rebuilt {
+                    let mut cs = cores.clone();
+                    if let Some(slot) = cs.iter_mut().find(|c| &c.package == leaf) {
+                        *slot = unit;
+                    }
+                    match separate::link_cores(cs) {
+                        Ok(_) => writeln!(out, "link-stale {} ok", leaf).unwrap(),
+                        Err(e) => {
+                            let m = diag_text(&e, root).replace('\n', " ; ");
+                            // hashes are long; keep the shape of the message
+                            writeln!(out, "link-stale {} err {}", leaf, m).unwrap()
+                        }
+                    }
                 }
             }
         }
